@@ -234,6 +234,7 @@ asts! {
     };
     FieldLet {
         name: Identifier,
+        range_list: RangeList,
         value: Value,
     };
     Type [
@@ -375,6 +376,7 @@ asts! {
     };
     List {
         value_list: ValueList,
+        r#type: Type,
     };
     ValueList {
         values: [Value],
